@@ -106,6 +106,13 @@ add("C09", "exploration",
     "Oracle = /verif/ref/reftx calibrated on tx_valid/tx_invalid.json and the genesis block. Hang = 3 s per-case watchdog reproduced 3/3 with the same outermost frame, otherwise inconclusive. Inputs above 32 MiB (MAX_SIZE) are not generated.",
     "DESIGN.md §3 C09")
 
+add("C10", "exploration",
+    "round-trip runtime monitor with generated records as ground truth: both record formats, every decoder path, single-output lookup vs whole decode, exhaustive/random amount compressor checks, snapshots written by one process and reloaded by a fresh one",
+    "Held on the cases observed: ~120k records per quick run (1..30001 outputs, sparse survivors, script lengths at CompactSize boundaries and the compressed-length escape, 74 script families incl. P2PKH/P2SH/P2PK look-alikes, off-curve and non-canonical keys, heights/vouts at boundaries) round-tripped in both formats through all decoder entry points, "
+    "4.8M single-output lookups, amount compressor exhaustive below 2^24 plus 10^7 random and all k*10^j+-1, and ~40 snapshot scenarios (plain, compressed, converted, Idle-then-Close, aborted save, UTXO.old fallback) reopened in fresh processes.",
+    "Oracle = deep equality with the generated record (no reference codec needed). Snapshot scenarios that depend on a background save are judged only when its completion on disk was observed, otherwise counted inconclusive.",
+    "DESIGN.md §3 C10")
+
 NOT_BUILT = {}
 
 def main():
